@@ -625,6 +625,25 @@ func (w *shapeWalker) object(t types.Type, s *openapi3.Schema, key, where string
 				if wr.NullCapable != ps.Value.Nullable {
 					problems = append(problems, fmt.Sprintf("property %q: schema nullable=%v but the writer can emit null=%v", k, ps.Value.Nullable, wr.NullCapable))
 				}
+				if ps.Value.Type == "string" && ps.Value.Format == "date-time" {
+					// the written text must have the declared format: RFC3339 (nano) unless x-goag-go-time-format
+					// names another layout — a Go expression such as time.RFC1123 or http.TimeFormat
+					want := rfc3339NanoLit
+					if f := extString(ps.Value, "x-goag-go-time-format"); f != "" {
+						want = timeLayoutLit(f)
+					}
+					if _, isNamed := derefNamed(unwrapInner(wr.Field.Type())); !(isNamed && len(wr.Layouts) == 0) {
+						badL := len(wr.Layouts) == 0
+						for _, l := range wr.Layouts {
+							if l != want {
+								badL = true
+							}
+						}
+						if badL {
+							problems = append(problems, fmt.Sprintf("property %q: date-time is formatted with %v, the schema demands %s", k, wr.Layouts, want))
+						}
+					}
+				}
 				if ps.Value.Type == "array" && !ps.Value.Nullable && !wr.NilSliceFix {
 					if _, isNamed := derefNamed(unwrapInner(wr.Field.Type())); !isNamed {
 						problems = append(problems, fmt.Sprintf("property %q: a nil slice is not normalised to [] although the array is not nullable: null would be written", k))
